@@ -740,6 +740,84 @@ theorem name_validated_of_colon {f : Facts} {t cp sr : Str} {l : Label} (h : try
   obtain ⟨hp, hne⟩ := tryParse_some h
   exact (parsePartsF_ok _ hp hne hcp).2 hc
 
+/-! ### the three ways a printed label fails to parse back -/
+
+/-- The printed form of the sentinel is prose; it never parses. -/
+theorem tryParse_original (f : Facts) (cp : Str) : tryParse f (toStr original) cp [] = none := by
+  have : toStr original = "command-line targets".toList := by decide
+  rw [this]
+  unfold tryParse parseParts
+  rw [parsePartsF_succ]
+  simp [startsWith, List.isPrefixOf, failParts]
+
+/-- An explicit printed name that the validator rejects makes the whole re-parse fail. -/
+theorem reparse_bad_name {f : Facts} (w : FactsWF f) {l : Label} (h1 : l ≠ original) (hp : validPkg f l.pkg = true)
+    (hn0 : l.name ≠ []) (hd : l.name ≠ dots) (hv : validTgt f l.name = false) (hs : SubOK l.sub) (cp : Str) :
+    tryParse f (toStr l) cp [] = none := by
+  have hc := validPkg_no_colon w hp
+  have hb : body l = l.pkg ++ ':' :: l.name := by simp [body, hd]
+  have hh : (body l).head? ≠ some '/' := body_head hp
+  have hab : ∀ n sr, parsePartsF f (n + 1) ('/' :: '/' :: body l) cp sr = failParts := by
+    intro n sr
+    rw [parsePartsF_abs f n _ cp sr hh, hb]
+    unfold parseAbs
+    rw [splitFirst_append _ hc]
+    simp [hv]
+  unfold tryParse parseParts
+  rw [toStr_eq hn0 h1]
+  by_cases hsub : l.sub = []
+  · simp only [hsub, ne_eq, not_true_eq_false, if_false, List.nil_append]
+    rw [hab]; simp [failParts]
+  · simp only [hsub, ne_eq, not_false_eq_true, if_true]
+    obtain ⟨s1, s2, s3⟩ := hs
+    simp only [List.cons_append, List.nil_append, List.length_cons]
+    rw [parsePartsF_sub]
+    unfold subrepoWith
+    rw [splitDbl_append _ s2 s3]
+    have hcont : l.sub.contains ':' = false := by simpa using s1
+    simp only [hcont]
+    rw [List.length_append, List.length_cons, List.length_cons]
+    rw [show l.sub.length + ((body l).length + 1 + 1) + 3 = (l.sub.length + (body l).length + 4) + 1 by omega]
+    rw [hab]; simp [failParts]
+
+/-- A subrepo with a trailing '/' is cut one byte early when the printed form is parsed again. -/
+theorem reparse_sub_slash {f : Facts} {l : Label} (h1 : l ≠ original) (hn0 : l.name ≠ [])
+    (hc : ':' ∉ l.sub) (hd : hasDbl l.sub = false) (hl : l.sub.getLast? = some '/') (cp : Str) :
+    tryParse f (toStr l) cp [] ≠ some l := by
+  obtain ⟨u, hu⟩ : ∃ u, l.sub = u ++ ['/'] := by
+    rcases List.eq_nil_or_concat l.sub with e | ⟨u, c, e⟩
+    · rw [e] at hl; simp at hl
+    · rw [e] at hl; simp at hl; subst hl; exact ⟨u, by simpa using e⟩
+  have hsub : l.sub ≠ [] := by rw [hu]; simp
+  have hud : hasDbl u = false := by rw [hu] at hd; exact hasDbl_append_left hd
+  have hul : u.getLast? ≠ some '/' := by
+    intro h
+    obtain ⟨z, hz⟩ : ∃ z, u = z ++ ['/'] := by
+      rcases List.eq_nil_or_concat u with e | ⟨z, c, e⟩
+      · rw [e] at h; simp at h
+      · rw [e] at h; simp at h; subst h; exact ⟨z, by simpa using e⟩
+    rw [hu, hz] at hd
+    have := hasDbl_append_dbl z []
+    simp at hd this; rw [this] at hd; exact Bool.noConfusion hd
+  have huc : u.contains ':' = false := by
+    have : ':' ∉ u := by intro h; apply hc; rw [hu]; simp [h]
+    simpa using this
+  intro h
+  unfold tryParse parseParts at h
+  rw [toStr_eq hn0 h1] at h
+  simp only [hsub, ne_eq, not_false_eq_true, if_true, List.cons_append, List.nil_append, List.length_cons] at h
+  rw [parsePartsF_sub] at h
+  unfold subrepoWith at h
+  rw [hu] at h
+  have e : u ++ ['/'] ++ '/' :: '/' :: body l = u ++ '/' :: '/' :: ('/' :: body l) := by simp
+  rw [e, splitDbl_append _ hud hul] at h
+  simp only [huc] at h
+  simp at h
+  have := congrArg Label.sub h.2
+  simp at this
+  have := congrArg List.length this
+  rw [hu] at this; simp at this
+
 /-! ### sandbox opt-out and experimental directories -/
 
 theorem sbxDirTest_slash {f : Facts} (h : f.sandboxExpSlash = true) (pkg d : Str) :
